@@ -36,6 +36,15 @@ CHECKS = {
         "tool-written file from another state (stale defaults, outside the quantifier). Bounds: <=14 options, <=14 operations.",
         "DESIGN.md 3/C02",
     ),
+    "C07": (
+        "exploration",
+        "cross-format differential testing: the five generated outputs are parsed back and compared (Hypothesis)",
+        "Generated trees x assignments x rename files; sdkconfig (+deprecated block), C header (+alias defines), CMake, JSON and auto.conf "
+        "are parsed into typed tables and compared on presence, values and every effective alias (value, inversion flag, presence). "
+        "Exploration: the oracle is agreement between independent writers, plus the rename table as reference for aliases.",
+        "Trusted: the small output parsers in vk/obs.py; '!' is only generated on aliases of bool options. Bounds: <=12 options, <=9 aliases.",
+        "DESIGN.md 3/C07",
+    ),
 }
 
 NOT_YET = {}
